@@ -3,3 +3,5 @@ import SimProc.Model.Basic
 import SimProc.Model.World
 import SimProc.Proofs.EnvLemmas
 import SimProc.Props.C01
+import SimProc.Props.C07
+import SimProc.Props.Facts
